@@ -245,6 +245,23 @@ func corpus(r *rand.Rand) map[string][][]byte {
 			out["twkb"] = append([][]byte{b}, out["twkb"]...)
 		}
 	}
+	// TWKB collections whose members carry different dimension headers (a writer never produces them - collections have
+	// one coordinate type - but every member has a header of its own, and a reader must take each as it comes)
+	memb := []geom.Geometry{mustWKT("POINT Z(1 2 3)"), mustWKT("POINT(4 5)"), mustWKT("POINT M(1 2 9)"), mustWKT("MULTIPOINT ZM((1 2 3 4),(5 6 7 8))"),
+		mustWKT("LINESTRING(0 0,1 1)"), mustWKT("LINESTRING Z(0 0 1,1 1 2)"), mustWKT("MULTIPOINT((7 8))"), mustWKT("POLYGON M((0 0 1,1 0 2,0 1 3,0 0 1))")}
+	for i := range memb { // every ordered pair
+		for k := range memb {
+			b := []byte{0x07, 0x00, 2}
+			for _, m := range []geom.Geometry{memb[i], memb[k]} {
+				mb, err := geom.MarshalTWKB(m, 0)
+				if err != nil {
+					panic(err)
+				}
+				b = append(b, mb...)
+			}
+			out["twkb"] = append(out["twkb"], b)
+		}
+	}
 	f := geom.GeoJSONFeature{Geometry: mp, ID: 5, Properties: map[string]interface{}{"a": 1}}
 	fb, _ := json.Marshal(f)
 	fcb, _ := json.Marshal(geom.GeoJSONFeatureCollection{f, f})
@@ -345,6 +362,13 @@ func decodeGen(r *rand.Rand, n int, tier string, emit func(Case)) {
 		return b
 	}
 	i := 0
+	// every corpus entry as it is (the sweeps and mutations below never feed an entry unchanged)
+	for _, f := range fmts {
+		for _, src := range corp[f] {
+			put(f, src)
+			i++
+		}
+	}
 	// structured sweeps over small corpus entries: every truncation, every count position
 	for _, f := range fmts {
 		// every format gets its share (the binary formats take six to eleven cases per position: left to itself the
